@@ -84,6 +84,10 @@ REG = {
         dict(name='c13::xmd_m8_d8_l16', tier='thorough', t=5400, mem=24),
         dict(name='c13::xmd_255_blocks_ok', tier='thorough', t=3600, mem=24),
         dict(name='c13::xmd_256_blocks_abort', tier='quick', t=1800),
+        dict(name='c13::xmd_510_bytes_ok', tier='thorough', t=3600, mem=24),
+        dict(name='c13::xmd_511_bytes_abort', tier='quick', t=1800),
+        dict(name='c13::xmd_dst255', tier='thorough', t=3600, mem=24),
+        dict(name='c13::xof_dst255', tier='quick', t=1800),
         dict(name='c13::xof_m3_d3_l7', tier='quick', t=1800),
         dict(name='c13::xof_m0_d0_l1', tier='quick', t=1800),
         dict(name='c13::xof_m5_d2_l0', tier='thorough', t=1800),
@@ -179,6 +183,14 @@ def run_one(root, crate, h, logdir):
         env.pop('CARGO_TARGET_DIR', None)
         p = subprocess.run(['bash', '-c', cmd], cwd=crate, env=env, stdout=subprocess.PIPE, stderr=subprocess.STDOUT, text=True)
         out = p.stdout
+        # per-harness result files (the interleaved "Thread k:" console output is only the fallback)
+        files = {}
+        for n in names:
+            try:
+                with open(os.path.join(resdir, n)) as rf:
+                    files[n] = rf.read()
+            except OSError:
+                pass
     finally:
         fcntl.flock(fh, fcntl.LOCK_UN)
         fh.close()
@@ -213,6 +225,13 @@ def parse(out, rc):
             r['status'] = 'UNWIND'
         elif not fails and und:
             r['status'] = 'ERROR'
+        m = re.search(r'CBMC failed with status (\d+)', out)
+        if not m and 'encountered no panics, but at least one was expected' in out:
+            r['failed_checks'] = ['the panic the property demands is unreachable (#[kani::should_panic] harness saw none)']
+        elif m or (not fails and not r.get('nfailed') and 'Failed Checks:' not in out):
+            # the back end died (killed, out of memory, crash) or no failing check is named: no verdict, never a counterexample
+            r['status'] = 'ERROR'
+            r['detail'] = m.group(0) if m else 'FAILED without a failing check'
     elif rc == 124 or rc == 137:
         r['status'] = 'TIMEOUT'
     elif 'error' in out.lower() and 'Compiling' in out or 'error[' in out or 'error:' in out:
@@ -263,10 +282,40 @@ def parse_multi(out, names):
     return res
 
 
+def _watchdog(pgid, mem_kb, stop, killed):
+    """kill any cbmc of our process group whose resident set exceeds the per-harness budget (reported as OOM, never as a verdict)"""
+    page_kb = os.sysconf('SC_PAGE_SIZE') // 1024
+    while not stop.wait(2.0):
+        try:
+            for d in os.listdir('/proc'):
+                if not d.isdigit():
+                    continue
+                try:
+                    with open('/proc/%s/stat' % d) as fh:
+                        st = fh.read()
+                except OSError:
+                    continue
+                rp = st.rfind(')')
+                comm = st[st.find('(') + 1:rp]
+                f = st[rp + 2:].split()
+                if comm != 'cbmc' or int(f[3]) != pgid:      # session id = our Popen child
+                    continue
+                if int(f[21]) * page_kb > mem_kb:
+                    try:
+                        os.kill(int(d), 9)
+                        killed.append(int(d))
+                    except OSError:
+                        pass
+        except Exception:
+            pass
+
+
 def run_harnesses(ctx, prefix, tier_filter=True, only=None):
     """all selected harnesses of a property in ONE `cargo kani` invocation (compiled once, verified on SLOTS threads)"""
     chk = ctx.chk
     hs = [h for h in REG[prefix] if (h['tier'] == 'quick' or ctx.tier == 'thorough' or not tier_filter)]
+    if only is None and os.environ.get('VERIF_KANI_ONLY'):      # debugging aid; never set by registered commands
+        only = os.environ['VERIF_KANI_ONLY'].split(',')
     if only:
         hs = [h for h in hs if any(o in h['name'] for o in only)]
     if not hs:
@@ -294,15 +343,32 @@ def run_harnesses(ctx, prefix, tier_filter=True, only=None):
     try:
         tdir = os.path.join(root, 'kani-target-multi-%d' % slot)
         args = ['cargo', 'kani', '--exact'] + [x for n in names for x in ('--harness', n)] + \
-               ['-j', str(min(SLOTS, len(names))), '--output-format', 'terse', '-Z', 'stubbing', '-Z', 'unstable-options',
+               ['-j', str(min(SLOTS, len(names))), '--output-format', 'terse', '--output-into-files', '-Z', 'stubbing', '-Z', 'unstable-options',
                 '--harness-timeout', '%ds' % tmax, '--target-dir', tdir]
+        resdir = os.path.join(tdir, 'result_output_dir')
+        shutil.rmtree(resdir, ignore_errors=True)
         total = tmax * (1 + (len(names) - 1) // SLOTS) + 900
-        cmd = 'ulimit -v %d; exec timeout -k 20 %d %s' % (mem_kb, total, ' '.join(args))
+        # no `ulimit -v` on the whole invocation: kani-driver itself holds several GB with many harnesses and dies with "memory
+        # allocation failed" (observed: one harness silently without a verdict).  Memory is policed per cbmc process instead.
+        cmd = 'exec timeout -k 20 %d %s' % (total, ' '.join(args))
         env = dict(os.environ, CARGO_NET_OFFLINE='true')
         env.pop('RUSTUP_TOOLCHAIN', None)
         env.pop('CARGO_TARGET_DIR', None)
-        p = subprocess.run(['bash', '-c', cmd], cwd=crate, env=env, stdout=subprocess.PIPE, stderr=subprocess.STDOUT, text=True)
-        out = p.stdout
+        p = subprocess.Popen(['bash', '-c', cmd], cwd=crate, env=env, stdout=subprocess.PIPE, stderr=subprocess.STDOUT, text=True, start_new_session=True)
+        killed = []
+        stop = threading.Event()
+        wd = threading.Thread(target=_watchdog, args=(p.pid, mem_kb, stop, killed), daemon=True)
+        wd.start()
+        out, _ = p.communicate()
+        stop.set()
+        # per-harness result files (the interleaved "Thread k:" console output is only the fallback)
+        files = {}
+        for n in names:
+            try:
+                with open(os.path.join(resdir, n)) as rf:
+                    files[n] = rf.read()
+            except OSError:
+                pass
     finally:
         fcntl.flock(fh, fcntl.LOCK_UN)
         fh.close()
@@ -310,6 +376,12 @@ def run_harnesses(ctx, prefix, tier_filter=True, only=None):
     with open(os.path.join(logdir, prefix + '_multi.log'), 'w') as lf:
         lf.write(out)
     per = parse_multi(out, names)
+    for n, text in files.items():
+        rf = parse(text, 0)
+        if rf['status'] != 'UNKNOWN':
+            m = re.search(r'Verification Time: ([\d.]+)s', text)
+            rf['seconds'] = float(m.group(1)) if m else per[n].get('seconds')
+            per[n] = rf
     build_error = ('error: could not compile' in out) or ('error[' in out and 'Checking harness' not in out)
     results = []
     for h in hs:
@@ -326,7 +398,7 @@ def run_harnesses(ctx, prefix, tier_filter=True, only=None):
         results.append(r)
         chk.kani.append(r)
         print('  kani %-45s %-8s checks=%s covers=%s/%s %.0fs' % (r['harness'], r['status'], r['checks'], r['covers_sat'], r['covers'], r['seconds'] or 0))
-    chk.extra['kani_invocation'] = {'harnesses': len(names), 'jobs': min(SLOTS, len(names)), 'wall_s': wall, 'per_harness_timeout_s': tmax,
+    chk.extra['kani_invocation'] = {'cbmc_killed_over_memory_budget': len(killed), 'per_cbmc_rss_budget_gb': round(mem_kb / 1048576, 1), 'harnesses': len(names), 'jobs': min(SLOTS, len(names)), 'wall_s': wall, 'per_harness_timeout_s': tmax,
                                     'flags': '--exact -j N --output-format terse -Z stubbing -Z unstable-options --harness-timeout'}
     return results
 
